@@ -10,6 +10,8 @@
      step DropHandle    = Drop for Triggered (release.send(()))
      step DropBarrier   = Drop for Barrier (BarrierRepo::drop + the receiver and its queued
                           messages, hence their oneshot senders, are dropped)
+     step Abandon/Kill  = the future awaiting trigger() (oneshot receiver) is dropped by the source
+                          itself (timeout) / together with the source (abort, Sim::crash)
    Conditions are arbitrary functions V -> bool; V is the type of trigger values
    (Box<dyn Any>; a condition built for another Rust type is `false` on it).
    The unbounded mpsc channel to the test is a FIFO list, the oneshot release
@@ -20,10 +22,10 @@ From TV.Lib Require Import Base.
 Open Scope N_scope.
 
 Inductive reaction := Noop | Suspend | Panic.
-Inductive sstate := Running | Suspended | Panicked.
+Inductive sstate := Running | Suspended | Panicked | Gone.
 
 Definition sstate_eqb (a b : sstate) : bool :=
-  match a, b with Running, Running | Suspended, Suspended | Panicked, Panicked => true | _, _ => false end.
+  match a, b with Running, Running | Suspended, Suspended | Panicked, Panicked | Gone, Gone => true | _, _ => false end.
 
 Section WithV.
 Variable V : Type.
@@ -46,7 +48,9 @@ Inductive ev :=
 | TriggerNoop (src : N) (v : V)
 | Wait (b : N)
 | DropHandle (h : N)
-| DropBarrier (b : N).
+| DropBarrier (b : N)
+| Abandon (src : N)      (* the future awaiting trigger() is dropped (timeout / select!), the source goes on *)
+| Kill (src : N).        (* the whole source is dropped while parked or not (task abort, host crash) *)
 
 Inductive obs :=
 | OBuilt (b : N)
@@ -103,6 +107,24 @@ Fixpoint get_handle (h : N) (l : list handle) : option handle :=
   | [] => None
   | x :: t => if h_id x =? h then Some x else get_handle h t
   end.
+
+(* The oneshot receiver of `src` is gone: whatever sender is still queued or held
+   for it becomes inert (the report itself stays where it is). *)
+Definition inert_entry (src : N) (e : entry) : entry :=
+  match e_rel e with
+  | Some k => if k =? src then {| e_val := e_val e; e_rel := None; e_tid := e_tid e |} else e
+  | None => e
+  end.
+Definition inert_handle (src : N) (h : handle) : handle :=
+  match h_rel h with
+  | Some k => if k =? src then {| h_id := h_id h; h_val := h_val h; h_rel := None; h_tid := h_tid h |} else h
+  | None => h
+  end.
+Definition inert (s : state) (src : N) (x : sstate) : state :=
+  {| regs := map (fun b => set_fifo b (map (inert_entry src) (b_fifo b))) (regs s);
+     srcs := sset (srcs s) src x;
+     handles := map (inert_handle src) (handles s);
+     nbid := nbid s; nhid := nhid s; ntid := ntid s |}.
 
 Definition step (s : state) (e : ev) : state * obs :=
   match e with
@@ -173,6 +195,16 @@ Definition step (s : state) (e : ev) : state * obs :=
               srcs := release_all (srcs s) (rels (b_fifo x));
               handles := handles s; nbid := nbid s; nhid := nhid s; ntid := ntid s |}, ODone)
       end
+  | Abandon src =>
+      match sget (srcs s) src with
+      | Suspended => (inert s src Running, ODone)
+      | _ => (s, ODone)
+      end
+  | Kill src =>
+      match sget (srcs s) src with
+      | Panicked => (s, ODone)               (* its task has ended already *)
+      | _ => (inert s src Gone, ODone)
+      end
   end.
 
 Fixpoint run (s : state) (es : list ev) : state * list obs :=
@@ -188,7 +220,7 @@ Arguments b_id {V}. Arguments b_cond {V}. Arguments b_react {V}. Arguments b_fif
 Arguments h_id {V}. Arguments h_val {V}. Arguments h_rel {V}. Arguments h_tid {V}.
 Arguments regs {V}. Arguments srcs {V}. Arguments handles {V}. Arguments nbid {V}. Arguments nhid {V}. Arguments ntid {V}.
 Arguments Build {V}. Arguments Trigger {V}. Arguments TriggerNoop {V}. Arguments Wait {V}.
-Arguments DropHandle {V}. Arguments DropBarrier {V}.
+Arguments DropHandle {V}. Arguments DropBarrier {V}. Arguments Abandon {V}. Arguments Kill {V}.
 Arguments OBuilt {V}. Arguments OTrig {V}. Arguments OBusy {V}. Arguments OWait {V}. Arguments ODone {V}.
 
 (* ---- concrete instance for the correspondence: a value is (Rust type tag, number) ---- *)
@@ -203,7 +235,7 @@ Definition cpred_eval (p : cpred) (n : N) : bool :=
 (* Barrier::<T>::build: downcast to T first *)
 Definition ccond (ty : N) (p : cpred) (v : cval) : bool := (fst v =? ty) && cpred_eval p (snd v).
 
-Definition code_state (x : sstate) : N := match x with Running => 0 | Suspended => 1 | Panicked => 2 end.
+Definition code_state (x : sstate) : N := match x with Running => 0 | Suspended => 1 | Panicked => 2 | Gone => 3 end.
 
 Definition enc_obs (o : @obs cval) : list N :=
   match o with
